@@ -151,6 +151,7 @@ type Run struct {
 	Subm       []*Submission
 	Quiescent  bool   // sentinel acknowledged, queues empty
 	Livelock   bool   // LivelockConns healthy connections after stabilisation without the sentinel being acknowledged
+	DeafOpen   []int  // connections that stopped answering PINGREQ (keep-alive enabled) and were still open half a watchdog later
 	Stuck      bool   // watchdog fired and the system was certified quiescent (no progress possible)
 	Inconcl    string // non-empty: why no verdict can be given
 	EndSeq     int    // events after this seq belong to tear-down
@@ -217,6 +218,9 @@ const Sentinel = "~sentinel"
 
 // Sentinel2 is the tag of the second closing publish (see Exec).
 const Sentinel2 = "~sentinel2"
+
+// Sentinel3 is submitted after a connection that stopped answering PINGREQ was given up (deafconn).
+const Sentinel3 = "~sentinel3"
 
 // Dialer is the harness mqtt.Dialer: it consults the dial plan, records events and hands out
 // BaseClients on fresh in-memory connections.
@@ -496,6 +500,18 @@ func Exec(sc *Scenario) *Run {
 			br.SilentPingOnly = true
 			tr.AddLocked(memnet.Event{Kind: memnet.KNote, S: "broker stops answering PINGREQ"})
 			tr.Mu.Unlock()
+		case "deafconn":
+			// the current connection never gets a PINGRESP again (it still answers everything else, and
+			// stabilisation does not heal it): only the keep-alive can find out
+			tr.Mu.Lock()
+			if br.Cur != nil && br.Cur.OpenLocked() {
+				if br.Deaf == nil {
+					br.Deaf = map[int]bool{}
+				}
+				br.Deaf[br.Cur.ID] = true
+				tr.AddLocked(memnet.Event{Kind: memnet.KNote, Conn: br.Cur.ID, S: "connection never answers PINGREQ again"})
+			}
+			tr.Mu.Unlock()
 		case "pingok":
 			tr.Mu.Lock()
 			br.SilentPingOnly = false
@@ -734,6 +750,22 @@ func Exec(sc *Scenario) *Run {
 			}
 			last = n
 			time.Sleep(1500 * time.Microsecond)
+		}
+	}
+	// a connection that stopped answering PINGREQ while keep-alive is enabled must be given up by the client
+	if sc.PingMs > 0 && len(br.Deaf) > 0 && r.Inconcl == "" {
+		for id := range br.Deaf {
+			id := id
+			if !tr.WaitFor(Watchdog/2, func() bool { return tr.Conns[id-1].LocalClosed || tr.Conns[id-1].PeerClosed }) {
+				r.DeafOpen = append(r.DeafOpen, id)
+			}
+		}
+		if len(r.DeafOpen) == 0 && len(br.Deaf) > 0 && !sc.NoSentinel {
+			// and the work goes on over a new connection
+			submit(9997, Step{Op: "pub", QoS: 1, Tag: Sentinel3})
+			if !tr.WaitFor(Watchdog/2, func() bool { return AckConsumedLocked(tr, "P:"+Sentinel3) }) {
+				r.Inconcl = "sentinel after a keep-alive timeout not acknowledged within the watchdog"
+			}
 		}
 	}
 	r.StatsEnd = retry.Stats()
